@@ -396,6 +396,7 @@ def run_case(case, exec_seed=None, exec_tape=None):
         out["discarded"] = True
         out["exec_tape"] = []
         return out
+    C.report_mismatch(ref, V)
     digests = []
     with C.Scratch() as root, warnings.catch_warnings():
         warnings.simplefilter("ignore")
